@@ -2,6 +2,7 @@ package checks
 
 import (
 	"fmt"
+	dtpb "github.com/google/fhir/go/proto/google/fhir/proto/r4/core/datatypes_go_proto"
 	"strings"
 
 	"github.com/verily-src/fhirpath-go/fhirpath"
@@ -71,6 +72,10 @@ func c06Forms() []boolForm {
 		{Name: "env.nonbool", Src: "%bs", Val: tT, NonBoo: true},
 		{Name: "env.multi", Src: "%bm", Val: tMulti},
 		{Name: "env.felem.false", Src: "%bfe", Val: tF},
+		// single non-Boolean items that have no System value at all: they still count as true
+		{Name: "env.nonbool.qty-novalue", Src: "%qnv", Val: tT, NonBoo: true},
+		{Name: "env.nonbool.bad-decimal", Src: "%dbad", Val: tT, NonBoo: true},
+		{Name: "env.nonbool.complex", Src: "%cx", Val: tT, NonBoo: true},
 		// function results
 		{Name: "fn.true", Src: "iif(true, true, false)", Val: tT},
 		{Name: "fn.false", Src: "Patient.active.not()", Val: tF},
@@ -91,6 +96,9 @@ func c06Env() map[string]any {
 		"bs":    system.String("false"), // a non-Boolean singleton that merely looks false
 		"bm":    system.Collection{system.Boolean(false), system.Boolean(false)},
 		"bfe":   fhir.Boolean(false),
+		"qnv":   &dtpb.Quantity{Unit: fhir.String("mg"), Code: fhir.Code("mg"), System: fhir.URI("http://unitsofmeasure.org")},
+		"dbad":  &dtpb.Decimal{Value: "abc"},
+		"cx":    lib.NameA(),
 		"bools": system.Collection{fhir.Boolean(true), fhir.Boolean(true)},
 	}
 }
@@ -176,12 +184,12 @@ func init() {
 	input := func() []fhir.Resource { return []fhir.Resource{lib.Patient()} }
 
 	core.Register(&core.Check{
-		ID:   "C06",
-		Rule: "complete enumeration: every operator x every ordered pair of 31 operand forms (value class x source), not() on every form, every form as where/exists/all/iif criterion and as EvaluateAsBool result, and the algebraic laws on every pair; a case is non-trivial when the implementation produced a result or error that was compared against the truth table (hash of case id + outcome)",
+		ID:          "C06",
+		Rule:        "complete enumeration: every operator x every ordered pair of 34 operand forms (value class x source), not() on every form, every form as where/exists/all/iif criterion and as EvaluateAsBool result, and the algebraic laws on every pair; a case is non-trivial when the implementation produced a result or error that was compared against the truth table (hash of case id + outcome)",
 		Assumptions: []string{"the operand forms' own meanings (e.g. Patient.active is true on the fixture) are established by navigation, which C02 checks", "nil options / typed-nil elements are outside the domain"},
 		Subs: func(tier string) []core.Sub {
 			return []core.Sub{
-				{Name: "binary", N: len(ops) * len(forms), Note: "4 operators x 31 left forms; inner loop 31 right forms", Run: func(i int, r *core.Rec) {
+				{Name: "binary", N: len(ops) * len(forms), Note: "4 operators x 34 left forms; inner loop 34 right forms", Run: func(i int, r *core.Rec) {
 					op, a := ops[i/len(forms)], forms[i%len(forms)]
 					for _, b := range forms {
 						src := a.Src + " " + op.name + " " + b.Src
@@ -228,7 +236,10 @@ func init() {
 				{Name: "criteria", N: len(forms), Note: "each form as criterion of where/exists/all/iif and through EvaluateAsBool", Run: func(i int, r *core.Rec) {
 					a := forms[i]
 					// criteria are evaluated with $this = the Patient, so forms keep their meaning
-					type crit struct{ name, src string; want func(tv) string }
+					type crit struct {
+						name, src string
+						want      func(tv) string
+					}
 					pass := func(t tv) string { // where keeps the item iff criterion is true
 						switch t {
 						case tT:
@@ -355,8 +366,8 @@ func init() {
 				}},
 				{Name: "custom-fn-source", N: 3, Note: "operands produced by a user-registered function", Run: func(i int, r *core.Rec) {
 					vals := []struct {
-						v    system.Collection
-						t    tv
+						v system.Collection
+						t tv
 					}{{system.Collection{system.Boolean(true)}, tT}, {system.Collection{system.Boolean(false)}, tF}, {system.Collection{}, tE}}
 					a := vals[i]
 					fn := func(in system.Collection) (system.Collection, error) { return a.v, nil }
